@@ -61,7 +61,8 @@ def generate(rng, tier, cls):
     if cls in ('cuts_writer', 'crash', 'overtake') or \
        (cls in ('length', 'length_delta') and rng.chance(0.5)):
         k = 3 if tier == 'thorough' else 2
-        main, ops = gen.gen_history(rng, max_changes=k, max_files=k)
+        main, ops = gen.gen_history(rng, max_changes=k, max_files=k,
+                                    big=rng.chance(0.04))
         prod = {'id': 'P1', 'kind': 'writer', 'file': 'f1',
                 'main_encoding': main, 'ops': ops}
     else:
@@ -71,8 +72,9 @@ def generate(rng, tier, cls):
                     max_files=3 if tier == 'thorough' else 2,
                     big=rng.chance(0.08))}
 
+    kind, buf = gen.gen_stream(rng)
     scn = {'actors': [prod], 'schedule': [], 'faults': [],
-           'block_size': bs}
+           'block_size': bs, 'stream': kind, 'buf': buf}
 
     if cls.startswith('cuts'):
         scn['cuts'] = {'mode': 'all'}
@@ -269,6 +271,8 @@ def execute(scn, L):
     out = pipe.Outcome()
     out.evals = 0
     bs = scn.get('block_size')
+    skw = {'stream': scn.get('stream') if scn.get('stream') in
+           ('sim', 'bytesio', 'buffered') else 'sim', 'buf': scn.get('buf')}
     crash = [f for f in scn.get('faults', ()) if f['kind'] == 'crash']
     lenf = [f for f in scn.get('faults', ()) if f['kind'] == 'length_fault']
 
@@ -297,7 +301,7 @@ def execute(scn, L):
         return out
 
     wA = World(scn, L)
-    R_full, end, exc = read_all(wA, intact, block_size=bs, actor='intact')
+    R_full, end, exc = read_all(wA, intact, block_size=bs, actor='intact', **skw)
     out.absorb(wA)
 
     if end != 'eof' or len(R_full) != len(ref):
@@ -315,7 +319,7 @@ def execute(scn, L):
 
     def one_cut(k, tag):
         wk = World(scn, L)
-        recs, e, x = read_all(wk, intact[:k], block_size=bs, actor='cut')
+        recs, e, x = read_all(wk, intact[:k], block_size=bs, actor='cut', **skw)
         out.absorb(wk)
         out.evals += 1
         sec = None
@@ -408,7 +412,7 @@ def execute(scn, L):
                 want = list(partial)
                 wk = World(scn, L)
                 recs, e, x = read_all(wk, faulty, block_size=bs,
-                                      actor='delta')
+                                      actor='delta', **skw)
                 out.absorb(wk)
                 out.evals += 1
                 nd += 1
@@ -576,7 +580,7 @@ def execute(scn, L):
 
         faulty = intact[:hs] + new + intact[he:]
         wk = World(scn, L)
-        recs, e, x = read_all(wk, faulty, block_size=bs, actor='lenfault')
+        recs, e, x = read_all(wk, faulty, block_size=bs, actor='lenfault', **skw)
         out.absorb(wk)
         out.evals += 1
         out.faults['length_fault:' + mode] = 1
